@@ -549,4 +549,40 @@ theorem C13_no_restart_violated :
     contFlagged ⟨0, 1⟩ s.apps = true ∧ alookup 0 s.running = none ∧
     alookup 0 s'.running = some ⟨0, 1⟩ ∧ refs s' ⟨0, 1⟩ = 2 := by decide
 
+/-! ### Re-adoption of an existing container that can no longer be configured (`cfgBreak`) -/
+
+
+/-- **C13 (re-adoption fails).**  A container that exists without any link (after a node restart), whose
+    cache entry is unchanged and which carries no finish marker, is configured again by the
+    synchronisation; when that fails (`cfgBreak`: the node changed under it) the container is handed to
+    cleanup under its instance name - it is not left in `apps/` without a link - and no running link
+    appears. -/
+theorem C13_readopt_failed (st : St) (cached : Cached) (c : CId) (ok : Bool)
+    (hrun : runningExists st c.inst = false) (hcl : cleanupExists st (.inst c.inst) = false)
+    (hc : alookup c.inst cached = some (c.gen, ok)) (hfl : contFlagged c st.apps = false)
+    (hcfg : (configure st c.inst).2 = false) :
+    alookup (.inst c.inst) (syncOne st cached c).1.cleanup = some c ∧
+    (syncOne st cached c).1.running = st.running := by
+  have hr : (configure st c.inst).1.running = st.running := by
+    unfold configure at hcfg ⊢
+    cases h : alookup c.inst st.cache with
+    | none => rfl
+    | some v =>
+      obtain ⟨g, ok'⟩ := v
+      cases ok' with
+      | true => simp [h] at hcfg
+      | false => simp
+  unfold syncOne
+  simp only [hrun, hcl, hc, hfl, hcfg, Bool.false_eq_true, ↓reduceIte]
+  constructor
+  · simp [addCleanup, ainsert, alookup]
+  · simpa [addCleanup] using hr
+
+def readoptDemo : St := runOps St.init [.fsCreate 0 0 true, .evCreated .ready [] [0], .wipe, .cfgBreak 0]
+example : hasCont ⟨0, 0⟩ readoptDemo.apps = true ∧ runningExists readoptDemo 0 = false ∧
+    cleanupExists readoptDemo (.inst 0) = false ∧ alookup 0 readoptDemo.cache = some (0, false) ∧
+    contFlagged ⟨0, 0⟩ readoptDemo.apps = false ∧ (configure readoptDemo 0).2 = false := by decide
+example : alookup (.inst 0) (synchronize { readoptDemo with active := true } [⟨0, 0⟩] []).cleanup = some ⟨0, 0⟩ := by
+  decide
+
 end TmVerif.AppCfg
